@@ -32,7 +32,12 @@ CONSTANTS MaxProd,        \* productions per document (fuel)
           Palette,        \* TRUE: attribute palette + snippets + macro tables
           Free,           \* TRUE: free lexemes
           NTargets,       \* link targets 1..NTargets (meaning: harness table)
-          NAttrs,         \* palette attribute sets 1..NAttrs
+          NAttrs,         \* palette attribute sets 1..NAttrs (fixed sets: classes, ids, positions, ...)
+          NDimProps,      \* palette: properties that carry a length / number (height with overflow:auto, width,
+                          \*          font-size, margin, border-width, colspan, rowspan, border, ...)
+          NDimShapes,     \* palette: spellings of such a value (px pt em % unitless decimal negative zero empty
+                          \*          garbage upper-case ...); attribute NAttrs + (p-1)*NDimShapes + s is property p
+                          \*          written with shape s — the whole product is part of the palette
           NSnips,         \* palette snippets 1..NSnips
           NLex,           \* free lexemes 1..NLex
           MaxLine,        \* tokens per line (keeps lines short so that documents get many blocks)
@@ -150,7 +155,7 @@ StyleOpen(kind) == \E i \in 1..Len(stack) : stack[i].k = "style" /\
 Spellings(kind) == IF kind = 3 THEN {0} ELSE IF Variants THEN {0, 1, 2} ELSE {0, 1}
 
 OpenStyle ==
-  /\ InInline /\ Room(4) /\ CanOpen /\ ~InPre /\ NW <= MaxWords
+  /\ InInline /\ Room(4) /\ CanOpen /\ NW <= MaxWords
   /\ \E kind \in {1, 2, 3} : \E spell \in Spellings(kind) :
        /\ ~StyleOpen(kind)
        /\ Count("style") < 2
@@ -172,14 +177,14 @@ CloseStyle ==
 
 \* [[Target]] : the target text itself is the visible word
 PlainLink ==
-  /\ InInline /\ Room(2) /\ CanStep /\ ~InLink /\ ~InPre /\ NW <= MaxWords
+  /\ InInline /\ Room(2) /\ CanStep /\ ~InLink /\ NW <= MaxWords
   /\ \E t \in 1..NTargets, sp \in SpChoices(Glue, LineEmpty) :
        /\ out' = out \o SpTok(sp) \o <<Tok("lo", t, 0)>>
        /\ den' = Append(den, [w |-> NW, path |-> CurPath \o <<Lab("Link", t)>>, t |-> t])
   /\ Spend /\ Same(<<stack, sec, lctx, pos, flags, done>>)
 
 OpenLink ==
-  /\ InInline /\ Room(4) /\ CanOpen /\ ~InLink /\ ~InPre /\ NW <= MaxWords
+  /\ InInline /\ Room(4) /\ CanOpen /\ ~InLink /\ NW <= MaxWords
   /\ \E t \in 1..NTargets, sp \in SpChoices(Glue, LineEmpty) :
        /\ out' = out \o SpTok(sp) \o <<Tok("lo", t, 1)>>
        /\ stack' = Append(stack, Fr("link", t, 0, 0))
@@ -192,7 +197,7 @@ CloseLink ==
   /\ Spend /\ Same(<<den, sec, lctx, pos, flags, done>>)
 
 OpenExt ==
-  /\ InInline /\ Room(4) /\ CanOpen /\ ~InLink /\ ~InPre /\ NW <= MaxWords
+  /\ InInline /\ Room(4) /\ CanOpen /\ ~InLink /\ NW <= MaxWords
   /\ \E u \in 1..2, sp \in SpChoices(Glue, LineEmpty) :
        /\ out' = out \o SpTok(sp) \o <<Tok("eo", u, 1)>>
        /\ stack' = Append(stack, Fr("ext", u, 0, 0))
@@ -233,6 +238,16 @@ ReuseRef ==
        /\ n = NamedDefs + 1 => (NamedDefs < 2 /\ ForwardUses = {} /\ fuel > CloseCost + 8)
        /\ out' = Append(out, Tok("ro", n, 2))
   /\ Spend /\ Same(<<den, stack, sec, lctx, pos, flags, done>>)
+
+\* "; term : description" on one line: from the separator on, the words of this line belong to a
+\* definition description at the same depth as the term (core.py ParseLines.splitdl)
+DefSep ==
+  /\ InInline /\ Room(4) /\ CanStep /\ NW <= MaxWords
+  /\ stack # <<>> /\ Top.k = "li" /\ lctx # <<>> /\ lctx[Len(lctx)].c = 3 /\ WordsOnLine
+  /\ (Last.t \in {"w", "sc", "lc", "ec", "rc"} \/ PlainLo(Last))
+  /\ out' = Append(out, Tok("dsep", 0, 0))
+  /\ lctx' = [lctx EXCEPT ![Len(lctx)] = [c |-> 4, n |-> 1]]
+  /\ Spend /\ Same(<<den, stack, sec, pos, flags, done>>)
 
 (* ---------------------------------------------------------------- line level *)
 EndLine ==
@@ -316,7 +331,9 @@ ListLine ==
   /\ Spend /\ Same(<<den, sec, done>>)
 
 Rotor(m) == IF m = 0 THEN 0 ELSE ((Len(out) * 7 + NW * 3 + fuel) % m) + 1
-AttrChoices == IF Palette THEN {0, Rotor(NAttrs)} ELSE {0}
+NDim == NDimProps * NDimShapes
+DimRotor == IF NDim = 0 THEN 0 ELSE ((Len(out) * 11 + NW * 5 + fuel * 3) % NDim) + 1
+AttrChoices == IF Palette THEN {0, Rotor(NAttrs), NAttrs + DimRotor} ELSE {0}
 
 (* ---------------------------------------------------------------- tables *)
 \* table frame: a = current row ordinal, b = cells in it,
@@ -344,10 +361,12 @@ Caption ==
 
 NextRow ==
   /\ TableCtx /\ CanStep /\ TFrame.c \in {0, 2, 3}
-  /\ out' = out \o <<Tok("tr", 0, 0), Tok("nl", 0, 0)>>
+  /\ \E at \in AttrChoices :
+       /\ out' = out \o <<Tok("tr", at, 0), Tok("nl", 0, 0)>>
+       /\ flags' = IF at = 0 THEN flags ELSE [flags EXCEPT !.clean = FALSE, !.lossless = FALSE]
   /\ stack' = SetT([TFrame EXCEPT !.c = 1])
   /\ lctx' = <<>>
-  /\ Spend /\ Same(<<den, sec, pos, flags, done>>)
+  /\ Spend /\ Same(<<den, sec, pos, done>>)
 
 NewCellFrames(h) ==
   LET f  == TFrame
@@ -356,7 +375,7 @@ NewCellFrames(h) ==
 
 Cell ==
   /\ TableCtx /\ CanOpen
-  /\ \E h \in {0, 1}, at \in (IF Palette THEN {0, 1, 2} ELSE {0}) :
+  /\ \E h \in {0, 1}, at \in AttrChoices :
        /\ out' = Append(out, Tok("tc", h, at))
        /\ stack' = NewCellFrames(h)
        /\ flags' = IF at = 0 THEN flags ELSE [flags EXCEPT !.clean = FALSE, !.lossless = FALSE]
@@ -406,8 +425,8 @@ Dirty == flags' = [flags EXCEPT !.clean = FALSE, !.lossless = FALSE]
 \* inline wrapper <span ATTR>…</span>
 OpenSpan ==
   /\ Palette /\ InInline /\ Room(4) /\ CanOpen /\ ~InPre /\ Count("span") < 2
-  /\ \E sp \in SpChoices(Glue, LineEmpty) :
-       out' = out \o SpTok(sp) \o <<Tok("xo", Rotor(NAttrs), 0)>>
+  /\ \E sp \in SpChoices(Glue, LineEmpty), at \in AttrChoices \ {0} :
+       out' = out \o SpTok(sp) \o <<Tok("xo", at, 0)>>
   /\ stack' = Append(stack, Fr("span", 0, 0, 0))
   /\ Dirty /\ Spend /\ Same(<<den, sec, lctx, pos, done>>)
 
@@ -480,7 +499,7 @@ EndFree == /\ Free /\ ~done /\ flags.mal /\ fuel = 0
 
 Next ==
   \/ Word \/ OpenStyle \/ CloseStyle \/ PlainLink \/ OpenLink \/ CloseLink \/ OpenExt \/ CloseExt
-  \/ OpenRef \/ CloseRef \/ ReuseRef \/ EndLine
+  \/ OpenRef \/ CloseRef \/ ReuseRef \/ DefSep \/ EndLine
   \/ Heading \/ ParaLine \/ ParagraphBreak \/ PreLine \/ ListLine
   \/ OpenTable \/ Caption \/ NextRow \/ Cell \/ CellSep \/ CloseTable
   \/ OpenDiv \/ CloseDiv
